@@ -280,6 +280,16 @@ def routines(path, arch="amd64"):
         for i, ins in enumerate(recs):
             ins.update(pc=pc, first=(i == 0), line=lno, txt=(op + " " + (rest or "")).strip(), src=src)
             cur.append(ins)
+    # zero-size pseudo-instructions (TEXT, FUNCDATA, PCDATA, NOP) share their pc with the next real
+    # instruction and are not executed by the CPU: drop them so that one machine step = one instruction
+    for name in list(out):
+        prog = out[name]
+        keep = []
+        for i, ins in enumerate(prog):
+            if ins["cl"] == "nop" and i + 1 < len(prog) and prog[i + 1]["pc"] == ins["pc"]:
+                continue
+            keep.append(ins)
+        out[name] = keep
     for name, prog in out.items():
         idx = {}
         for i, ins in enumerate(prog):
